@@ -38,6 +38,8 @@ for W in (8, 16, 32, 64):
     for cc in (True, False):
         tier = "quick" if W in (8, 64) else "thorough"
         for fn, (full, loopk) in R0_CFG.items():
+            if fn == "div" and W == 64:
+                continue  # 192-bit products in the assumed and the asserted clause: > 600 s, see not_covered
             if fn in ("div__int", "div__int_short") and W >= 16:
                 continue  # divider/multiplier miter: > 600 s on kissat at W = 16 and 32 (both builds), see not_covered
             extra = ["VF_FN_" + fn]
@@ -297,7 +299,7 @@ ASSUMPTIONS = [
 ]
 NOT_COVERED = [
  "portable bn_digit_mult__int (no BN_CC_MULL_DIV), general Knuth-M path, W >= 16: undecided by MiniSat, CaDiCaL, kissat, z3, cvc5 (> 300 s each, also with a term-aligned spec); W = 8 is proved, W = 16 is enumerated natively (all 2^32 pairs, reported as exhaustive_native, not as a deductive obligation), W = 32/64 shortcut paths (0, 1, power of two) only",
- "bn_digit_div__int / bn_digit_div__int_short: proved at W = 8 only (both builds, kissat 40-180 s); W = 16 and W = 32 did not finish in 600 s (divider/multiplier miter), W = 64 not attempted further - not registered; the wrapper bn_digit_div is proved at every width against the contract of bn_digit_div__int",
+ "bn_digit_div__int / bn_digit_div__int_short: proved at W = 8 only (both builds, kissat 40-180 s); W = 16 and W = 32 did not finish in 600 s (divider/multiplier miter), W = 64 not attempted further - not registered; the wrapper bn_digit_div is proved against the contract of bn_digit_div__int at W = 8, 16, 32 (W = 64: > 600 s, not registered)",
  "128-bit digits (no double-width type): not built",
  "capacities above the verified ones: value contracts are proved for <= 4 digits (8 digits at W=8 in the thorough tier); the unbounded jobs prove memory safety / frame / termination / carry range only; bn_digits_l_shift / bn_digits_r_shift have NO unbounded job (memmove/memset with symbolic length: > 240 s on every attempt, also with arrays capped at 64 digits) - only the bounded value jobs",
  "intra-object overflow: cbmc's bounds check for a member array reached through a pointer is object-granular, so an index such as num[(size_t)-1] that stays inside the bn_t object is not flagged (bn_sub with both operands zero reads num[digits - 1] with digits == 0: value unused, not detected by any obligation, not confirmed by UBSan either)",
